@@ -496,3 +496,22 @@ def _comp_binder(name_node):
                 return ast.Constant(value="<lambda-param:%s>" % name_node.id)
         n, p = p, getattr(p, "_parent", None)
     return None
+
+
+def resolve_local(fn_node, expr, at=None, depth=4):
+    """Follow single-definition locals to their value expression (an explaining variable and the expression it names
+    are the same thing to a rule); returns the expression itself when it is not such a local."""
+    e = expr
+    anchor = at if at is not None else expr
+    for _ in range(depth):
+        if not isinstance(e, ast.Name):
+            return e
+        try:
+            defs = cfg_of(fn_node).defs_reaching(e.id, anchor)
+        except AnalysisError:
+            return e
+        if len(defs) != 1 or defs[0][2] != "assign" or not isinstance(defs[0][1], ast.AST):
+            return e
+        anchor = cfg_of(fn_node).stmt(defs[0][0])
+        e = defs[0][1]
+    return e
